@@ -37,11 +37,33 @@ type seqGen struct {
 	deferred bool
 	clock    int64
 	profile  string
+	saved    map[int]bool
+	dirty    map[int]bool // deferred executor: keys written since the executor last ran
+	avoidK1  bool
 }
 
-func (g *seqGen) key() int               { return 1 + g.r.intn(g.nkeys) }
-func (g *seqGen) val() int               { g.nextVal++; return g.nextVal }
-func (g *seqGen) add(f string, a ...any) { g.lines = append(g.lines, fmt.Sprintf(f, a...)) }
+func (g *seqGen) key() int { return 1 + g.r.intn(g.nkeys) }
+func (g *seqGen) val() int { g.nextVal++; return g.nextVal }
+func (g *seqGen) add(f string, a ...any) {
+	line := fmt.Sprintf(f, a...)
+	if g.avoidK1 {
+		// known finding K1: a key rewritten before the executor replayed its previous write event ends up
+		// unknown to the eviction policy.  Keep this profile K1-free: pump the executor first.
+		t := strings.Fields(line)
+		writes := map[string]bool{"set": true, "sia": true, "compute": true, "cia": true, "cip": true, "inval": true,
+			"load": true, "bulkget": true, "refresh": true, "bulkrefresh": true, "invalall": true, "loadfrom": true, "save": true}
+		if len(t) > 0 && (t[0] == "runexec" || t[0] == "cleanup" || t[0] == "bound") {
+			g.dirty = map[int]bool{}
+		} else if len(t) > 1 && writes[t[0]] {
+			if len(g.dirty) > 0 {
+				g.lines = append(g.lines, "runexec")
+				g.dirty = map[int]bool{}
+			}
+			g.dirty[1] = true
+		}
+	}
+	g.lines = append(g.lines, line)
+}
 
 func (g *seqGen) dur() int64 {
 	// durations around the configured ttl, plus boundary values
@@ -214,7 +236,7 @@ func (g *seqGen) bulkOutcome(keys []int) string {
 }
 
 func (g *seqGen) nestedBlock(keys []int) string {
-	if !g.r.chance(0.35) {
+	if g.avoidK1 || !g.r.chance(0.35) {
 		return ""
 	}
 	var ops []string
@@ -332,7 +354,7 @@ func genSeqScript(seed uint64, profile string) []string {
 		}
 	}
 	expiry := "none"
-	if profile == "expiry" || profile == "huge" || r.chance(0.65) {
+	if profile == "expiry" || profile == "huge" || profile == "persist" || r.chance(0.65) {
 		g.withExp = true
 		expiry = pick(r, []string{"creating", "writing", "accessing", "custom"})
 		if expiry != "custom" {
@@ -359,9 +381,11 @@ func genSeqScript(seed uint64, profile string) []string {
 		}
 	}
 	exec := "sync"
-	if profile == "deferred" {
+	if profile == "deferred" || profile == "deferredk1" {
 		exec = "deferred"
 		g.deferred = true
+		g.avoidK1 = profile == "deferred"
+		g.dirty = map[int]bool{}
 	}
 	capS := ""
 	if r.chance(0.5) {
@@ -401,6 +425,24 @@ func genSeqScript(seed uint64, profile string) []string {
 			g.add("runexec")
 		case r.chance(0.04):
 			g.audit()
+		case (profile == "persist" && r.chance(0.12)) || r.chance(0.01):
+			if g.saved == nil {
+				g.saved = map[int]bool{}
+			}
+			slot := 1 + r.intn(2)
+			if g.saved[slot] && r.chance(0.6) {
+				tm := "same"
+				if g.bounded && r.chance(0.5) {
+					tm = fmt.Sprint(pick(r, []int{1, 2, g.max, g.max + 3, g.max * 2}))
+				}
+				g.add("loadfrom %d %s", slot, tm)
+			} else {
+				if g.deferred {
+					g.add("runexec")
+				}
+				g.add("save %d", slot)
+				g.saved[slot] = true
+			}
 		default:
 			g.add("%s", g.simpleOp(false, 0))
 		}
